@@ -193,7 +193,9 @@ def run(ctx):
     for qual in ("Job.run", "Job.run_async"):
         res = verify(ctx, JR.contract(qual, ROLES))
         summarize(ctx, res, replay=H.replay_path)
-    for c in (native_contract(), call_contract()):
+    from contracts import python_run as PR
+
+    for c in (native_contract(), call_contract(), PR.contract()):
         res = verify(ctx, c)
         summarize(ctx, res)
     H.bounded_injection(ctx, "C13")
